@@ -382,7 +382,7 @@ func runC14(ctx Ctx) int {
 			}
 		}
 	}
-	deadline := devx.Deadline(map[string]time.Duration{"quick": 6 * time.Minute, "thorough": 40 * time.Minute}[run.Tier])
+	deadline := devx.Deadline(map[string]time.Duration{"quick": 6 * time.Minute, "thorough": 15 * time.Minute}[run.Tier])
 	// memory-heavy: at most 4 workers at a time
 	os.Setenv("VERIF_WORKERS", "4")
 	_, complete := parallel(len(cases), deadline, func(i int) {
